@@ -199,6 +199,12 @@ def bindParams : List Str → RSt → R (List Val × List (Str × Val) × RSt)
         do let (more, locals, σ2) ← bindParams ps σ1
            .ok (more, setKV (p.filter (fun c => isLetter c || isDigit c)) x locals, σ2)
 
+/-- the arity a lambda is written with (`λ2|…;`), 1 when it has no header -/
+def declArity (ar : Option Nat) : Int :=
+  match ar with
+  | some a => (a : Int)
+  | Option.none => 1
+
 /-- the number of arguments a lambda takes: what the caller passes (`safe_apply`: the number of arguments), else the
     `stored_arity` the reduce / scan modifiers set, else its own arity -/
 def lamArity (f : RFn) (arity : Option Int) : Int :=
@@ -269,7 +275,12 @@ def execS (cfg : Cfg) : Nat → Structure → RSt → R (Sig × RSt)
   | _, .brk p, σ =>
       (match p with
        | .forS | .whileS => if σ.ctxVals.isEmpty then .error (.raised "IndexError") else .ok (.brk, σ)
-       | .lam => let (x, σ1) := σ.pop1; .ok (.ret x, σ1)
+       | .lam =>
+           -- return the top of the stack; the four bookkeeping lists are popped by the call (an empty one is the
+           -- IndexError the template's pops would raise here)
+           (match σ.pop1.2.leaveLam with
+            | .ok _ => .ok (.ret σ.pop1.1, σ.pop1.2)
+            | .error e => .error e)
        | _ => .ok (.normal, σ))
   | n, .recurse p, σ =>
       (match p with
@@ -313,16 +324,13 @@ def execS (cfg : Cfg) : Nat → Structure → RSt → R (Sig × RSt)
       else .ok (.normal, { σ with funcs := setKV (name.filter (fun c => isLetter c || isDigit c)) (params, body) σ.funcs,
                                   fns := σ.fns ++ [⟨0, Option.none, [], [], false⟩] })
   | _, .lam ar body, σ =>
-      let ar' : Int := match ar with | some a => (a : Int) | Option.none => 1
+      let ar' : Int := declArity ar
       .ok (.normal, { σ with fns := σ.fns ++ [⟨ar', Option.none, body, σ.params.map (·.1) ++ σ.shadow, true⟩],
                              stack := .fn σ.fns.length :: σ.stack })
   | n, .lamOp k body, σ =>
       let σ1 := { σ with fns := σ.fns ++ [⟨1, Option.none, body, σ.params.map (·.1) ++ σ.shadow, true⟩],
                          stack := .fn σ.fns.length :: σ.stack }
-      (match k with
-       | .lmap => execElem cfg n [77] σ1
-       | .lfilter => execElem cfg n [70] σ1
-       | _ => execElem cfg n [7777] σ1)
+      execElem cfg n (lamOpKey k) σ1
   | n, .listS items, σ =>
       do
         let (vals, σ1) ← listItems cfg n items σ
@@ -552,6 +560,8 @@ def execElem (cfg : Cfg) : Nat → Str → RSt → R (Sig × RSt)
                         let (y, σ2) ← foldFn cfg n f x r σ1
                         .ok (.normal, σ2.push y)
              | _, _ => .error (.unmodelled ("function value given to " ++ e.helper)))
+          else if e.helper = "vy_map" ∨ e.helper = "vy_filter" ∨ e.helper = "sort_by" ∨ e.helper = "vy_reduce" then
+            .error (.unmodelled "higher-order element without a function value")
           else do
             let r ← elemFn e.helper args
             .ok (.normal, σ1.push r)
